@@ -461,6 +461,56 @@ def openpgp_registry(name='AES', variant='rw'):
     return reg
 
 
+# ------------------------------------------------------------------------------------------------ lemmas over the contracts
+
+def inplace_contract(mode, op):
+    """C09: `output` is the input buffer itself.  The REAL method body is executed (inline) with both parameters bound to the
+    same bytearray; the native contract speaks of the input as it was at entry, which is what the C engine proves for in == out"""
+    P = 'obj._state._raw_pointer'
+    whole = 'old(%s.g_fed) + old(bytes(buf))' % P
+    value = 'bytes(buf) == %s' % (onefn(mode, op, P, 'old(bytes(buf))') if mode == 'ecb' else '%s[len(old(%s.g_fed)):]' % (onefn(mode, op, P, whole), P))
+    raises = {}
+    req = [SIZE_T % 'len(buf)']
+    if mode != 'ecb':
+        req.append("'%s' in obj._next" % op)
+    if mode in ('ecb', 'cbc'):
+        raises['ValueError'] = ('iff', 'len(buf) % obj.block_size != 0')
+    if mode == 'ctr':
+        raises['OverflowError'] = ('iff', 'len(%s.g_fed) + len(buf) > spec.modes.ctr_limit(obj.block_size, %s.g_counter_len)' % (P, P))
+    return Contract('spec.modes.lemma_inplace_' + op, params={'obj': 'obj:' + qual(mode), 'buf': 'bytearray'}, requires=req, raises=raises,
+                    ensures={'value': value, 'none': 'result is None', 'valid': 'valid(obj)'}, inline=[qual(mode, op)],
+                    modifies=['buf', P + '.g_fed', P + '.g_dir'] + (['obj._next'] if mode != 'ecb' else []), opaque=['spec.modes.ctr_limit'])
+
+
+def roundtrip_contract(mode):
+    """C02: decrypt(encrypt(m)) == m for two fresh objects with the same key and parameters -- a consequence of the contracts of
+    encrypt and decrypt (applied, not inlined) and of the inverse laws of the abstract mode functions (spec.modes SIG facts:
+    E_k^-1 . E_k = id for ECB / CBC / CFB, xor with the same key stream twice for OFB / CTR)"""
+    A, B = 'enc._state._raw_pointer', 'dec._state._raw_pointer'
+    same = ['%s.g_alg == %s.g_alg' % (A, B), '%s.g_key == %s.g_key' % (A, B)]
+    if mode != 'ecb':
+        same += ['%s.g_iv == %s.g_iv' % (A, B), 'len(enc._next) == 2 and len(dec._next) == 2']
+    if mode == 'cfb':
+        same.append('%s.g_seg == %s.g_seg' % (A, B))
+    if mode == 'ctr':
+        same += ['%s.g_prefix_len == %s.g_prefix_len and %s.g_counter_len == %s.g_counter_len and %s.g_le == %s.g_le' % (A, B, A, B, A, B),
+                 'len(m) <= spec.modes.ctr_limit(enc.block_size, %s.g_counter_len)' % A]
+    if mode in ('ecb', 'cbc'):
+        same.append('len(m) % enc.block_size == 0')
+    return Contract('spec.modes.lemma_roundtrip', params={'enc': 'obj:' + qual(mode), 'dec': 'obj:' + qual(mode), 'm': 'bytes'},
+                    requires=[SIZE_T % 'len(m)', 'enc.block_size == dec.block_size'] + same, raises={}, ensures={'inverse': 'result == m'},
+                    modifies=None, opaque=['spec.modes.ctr_limit'])
+
+
+def lemma_registry(mode, which):
+    reg = registry(mode, 'rw')
+    if which == 'roundtrip':
+        reg.add(roundtrip_contract(mode))
+    else:
+        reg.add(inplace_contract(mode, which))
+    return reg
+
+
 def install_mode_lib(reg, mode):
     m, cls, lib, P = MODES[mode]
     rawapi.install_lib(reg, C + m + '.' + lib, 'native.raw_' + mode,
@@ -510,6 +560,12 @@ def units(prop, tier):
             for name in names:
                 out.append(pyvc_unit(prop, 'mode.%s.factory.%s' % (mode, name), lambda mode=mode, name=name: registry(mode, 'factory', name),
                                      [qual(mode, '<factory>')], weight=2))
+    for mode in MODES:
+        if prop in ('C09', 'C17', 'C19'):
+            out.append(pyvc_unit(prop, 'mode.%s.inplace' % mode, lambda mode=mode: lemma_registry(mode, 'encrypt'), ['spec.modes.lemma_inplace_encrypt']))
+            out.append(pyvc_unit(prop, 'mode.%s.inplace_decrypt' % mode, lambda mode=mode: lemma_registry(mode, 'decrypt'), ['spec.modes.lemma_inplace_decrypt']))
+        if prop == 'C02':
+            out.append(pyvc_unit(prop, 'mode.%s.roundtrip' % mode, lambda mode=mode: lemma_registry(mode, 'roundtrip'), ['spec.modes.lemma_roundtrip']))
     if prop in ('C02', 'C09'):
         out.append(pyvc_unit(prop, 'factory.AES.new_cfb', lambda: openpgp_registry('AES', 'new'), [C + 'AES.new']))
         out.append(pyvc_unit(prop, 'mode.openpgp.init', lambda: openpgp_registry('AES', 'init'), [OP + '.__init__'], weight=3))
